@@ -13,38 +13,140 @@ ASPEC = 'assume_specification for i32::saturating_add, std::hint::black_box, Vec
 ARITH = 'machine arithmetic is NOT treated as mathematical: Verus checks every usize/i32 operation of the extracted text for overflow; Kani runs with overflow checks on'
 RSCHED = 'R-sched: workers share only the concurrent iterator, the ordered bag and Fn+Sync closures, so a concurrent run is observationally a sequential run of the workers over some chunk->worker assignment cut at an early-exit frontier (argued in DESIGN.md 1, re-checked by the shared-state scan, not machine-proved)'
 
+TASK_BOUND = 'Kani harnesses are bounded stand-ins: concrete shapes (n <= 3 source elements, chunk size, block->worker table, early-exit frontier), symbolic u8 data, symbolic closure tables over a 4-value domain; <= 2 workers through the Runner/merge contracts'
+STUBS = 'Kani kernels are verified against executable forms of the contracts that Verus proves for Runner::{run,run_map,reduce} and heap_sort_into_{vec,pinned_vec} (kani/verif_kani/stubs.rs), never against those bodies (std::thread::scope makes Kani 0.68 crash; the real heap merge exceeds CBMC)'
+MODEL = 'the concurrent iterator is the executable model of T1 in kani/verif_kani/model.rs (real dependency code is executed only for the wrappers values()/ids_and_values()/BufferedIter and for ConIterOfVec in eager second stages); orx-concurrent-iter copy with one keyword changed (`mod buffered` -> `pub mod buffered`), checked by diff on every run'
+
+MC_TEXT = 'bounded model checking of the real kernel/API code against the sequential oracle (same chain of std::iter adaptors) on exhaustively enumerated small shapes, composed with unbounded Verus proofs of the Runner and merge contracts; bounded part labelled bounded in the evidence'
+
 PROPS = {
+    'C01': dict(
+        level='model_checking', verus_units=['merge', 'core', 'utils'],
+        kani=True,
+        kani_select=dict(quick=r'^k_task_(map_fil|filtermap_fil|flatmap_fil)_col_n|^k_glue_map_fil_col_n2c1|^k_api_par2_(empty|fil|fmap|map_fil)_collect_vec',
+                         thorough=r'^k_task_\w+_col_n|^k_glue_\w+_col_n|^k_api_par2_\w+_collect(_vec)?_n'),
+        trusted_base=[T1, T2, T3, T4, T5, ASPEC, A64, ARITH, RSCHED, STUBS, MODEL],
+        assumptions=[TASK_BOUND],
+        explanation='Verus (unbounded, real text): heap_sort_into_vec/_pinned_vec append exactly the key-sorted enumeration of all (key,value) slots after the untouched prefix (every slot read once), for any number and length of worker vectors; Runner::run_map returns one result per worker in spawn order for every has_more() history. Kani (bounded): every collect kernel task returns exactly the survivors of the blocks delivered to it keyed by source position in strictly increasing key order (= the merge precondition, asserted by the merge contract stub); kernel glue and public API chains equal the std::iter chain. ' + MC_TEXT,
+    ),
+    'C02': dict(
+        level='model_checking', verus_units=['utils', 'core'],
+        kani=True,
+        kani_select=dict(quick=r'^k_task_\w+_find_n(3c1|2c1|1c1)|^k_glue_(map_fil|filtermap_fil)_find_n3c1|^k_api_par2_(map_fil_find|fil_first|map_any|fmap_fil_all|empty_find|fil_fil_find)',
+                         thorough=r'^k_task_\w+_find_|^k_glue_\w+_find_|^k_api_par2_\w+_(find|first|any|all)_n'),
+        trusted_base=[T1, T5, T6, A64, ARITH, RSCHED, STUBS, MODEL],
+        assumptions=[TASK_BOUND, 'early exit: for every frontier f >= the block in which some worker matched, blocks <= f are delivered to their owners (exactly the possibilities under T1)'],
+        explanation='Verus (unbounded): maybe_reduce case table (None neutral, reduce applied once in order on Some/Some); Runner::reduce folds every worker result once in spawn order. Kani (bounded): each find kernel task returns the first survivor of its blocks with its source index; kernel glue with the min-by-index reduce returns the global first match for every block->worker table and every early-exit frontier, None iff nothing matches; find/first/any/all through the public API agree with std. ' + MC_TEXT,
+    ),
+    'C03': dict(
+        level='model_checking', verus_units=['utils', 'core'],
+        kani=True,
+        kani_select=dict(quick=r'^k_task_\w+_red_n(3c1|3c2|1c1)|^k_glue_map_fil_red_n3c1|^k_api_par2_(map_fil_reduce|fil_fold|map_min_by_key|map_fil_sum)',
+                         thorough=r'^k_task_\w+_red_|^k_glue_\w+_red_|^k_api_par2_\w+_(reduce|fold|sum|min|max|min_by|max_by|min_by_key|max_by_key)_n'),
+        trusted_base=[T1, T5, T6, A64, ARITH, RSCHED, STUBS, MODEL],
+        assumptions=[TASK_BOUND, 'operators checked: wrapping add, xor, min, max on u8 payloads (associative and commutative)'],
+        explanation='Verus (unbounded): maybe_reduce case table; Runner::reduce returns the left fold of all worker results (each exactly once), None only for zero workers. Kani (bounded): each reduce kernel task folds exactly the survivors of its blocks with survivors-1 operator calls; glue and API wrappers (fold, sum, min, max, *_by, *_by_key) agree with the sequential fold; None iff nothing survives. ' + MC_TEXT,
+    ),
+    'C04': dict(
+        level='model_checking', verus_units=['core'],
+        kani=True,
+        kani_select=dict(quick=r'^k_task_\w+_cnt_n|^k_glue_(map_fil|filtermap_fil)_cnt_n3c1|^k_api_par2_(empty_count|map_fil_count|fil_for_each)',
+                         thorough=r'^k_task_\w+_cnt_|^k_glue_\w+_cnt_|^k_api_par2_\w+_(count|for_each)_n'),
+        trusted_base=[T1, T5, T6, A64, ARITH, RSCHED, STUBS, MODEL],
+        assumptions=[TASK_BOUND],
+        explanation='Verus (unbounded): Runner::reduce sums every worker count exactly once. Kani (bounded): each count kernel task (incl. the hand-rolled nested loop of filtermap_fil_cnt) returns the number of survivors among exactly the elements delivered to it; glue and count()/for_each() through the API agree with std; for_each calls its closure once per survivor. ' + MC_TEXT,
+    ),
+    'C05': dict(
+        level='model_checking', verus_units=[],
+        kani=True,
+        kani_select=dict(quick=r'^k_task_\w+_n3c1_m101|^k_task_flatmap_fil_(col|cnt|red|find)_n2c1|^k_api_par2_(map_fil_count|fil_for_each|map_fil_reduce|map_fil_find|fil_fil_find|map_fil_collect_vec)',
+                         thorough=r'^k_task_|^k_glue_|^k_api_par2_'),
+        trusted_base=[T1, T5, RSCHED, STUBS, MODEL],
+        assumptions=[TASK_BOUND, 'clause 2 of the property (a by-value iterator source is advanced by one thread at a time) is the CAS handle protocol inside orx-concurrent-iter ConIterOfIter: no contract on orx-parallel functions can express or decide it; it is assumed (T1), NOT claimed by this check'],
+        explanation='Kani (bounded): call-log harnesses. Every user closure logs (stage, source position); for must-visit terminals the call multiset equals the std chain (each stage exactly once per element reaching it, nothing for elements delivered to other workers); short-circuit terminals call each closure at most once per element. Covers every kernel task and the closure compositions of src/par/*.rs. ' + MC_TEXT,
+    ),
+    'C06': dict(
+        level='model_checking', verus_units=['merge'],
+        kani=True,
+        kani_select=dict(quick=r'^k_glue_map_fil_col_n2c1|^k_api_(par2|seq|par2u|sequ)_(map|map_fil)_into_vec',
+                         thorough=r'^k_glue_\w+_col_n|^k_api_\w+_into_'),
+        trusted_base=[T1, T2, T3, T4, T5, ASPEC, A64, RSCHED, STUBS, MODEL],
+        assumptions=[TASK_BOUND, 'targets hold one pre-existing symbolic element'],
+        explanation='Verus (unbounded): the merge appends after the untouched prefix old(output). Kani (bounded): collect_into for Vec / SplitVec / FixedVec targets with symbolic pre-existing contents, map-only (ordered bag) and filtering (merge) pipelines, known and unknown source length, parallel and num_threads(1): result == existing ++ std chain. ' + MC_TEXT,
+    ),
+    'C07': dict(
+        level='model_checking', verus_units=['core'],
+        kani=True,
+        kani_select=dict(quick=r'^k_task_(map_fil|filtermap_fil)_col_x_n3|^k_glue_map_fil_col_x_n2c1|^k_api_par2_map_collect_x',
+                         thorough=r'^k_task_\w+_col_x_|^k_glue_\w+_col_x_|^k_api_\w+_collect_x_n'),
+        trusted_base=[T1, T4, T5, RSCHED, STUBS, MODEL],
+        assumptions=[TASK_BOUND, 'flat_map collect_x kernels are in the thorough tier only (each harness needs 6-10 min of CBMC time)'],
+        explanation='Verus (unbounded): Runner::run_map keeps exactly one vector per worker. Kani (bounded): each collect_x kernel task returns the multiset of survivors of its blocks; glue with the real SplitVec::append and collect_x through the API are multiset-equal to the std chain. ' + MC_TEXT,
+    ),
     'C08': dict(
-        level='proof',
-        verus_units=['core'],
-        kani=['seq'],
-        trusted_base=[T1, T5, T7, AHW, A64, ARITH],
-        assumptions=['workers of one run are the only threads executing closures during it (T5)'],
-        explanation='Verus: calc_num_threads(len, Max(n)) <= n; Runner::new gives 1 <= max_num_threads <= n; every run/run_map/reduce spawns between 1 and max_num_threads workers for every sequence of has_more() answers; is_sequential() <=> Max(1). Kani: with Max(1) no kernel reaches the Runner.',
+        level='proof', verus_units=['core'],
+        kani=True,
+        kani_select=dict(quick=r'^k_api_seq_(empty_collect_vec|map_fil_collect_vec|map_fil_count|map_fil_reduce|map_fil_find|fil_first|map_any|fil_for_each|empty_count)',
+                         thorough=r'^k_api_seq_'),
+        trusted_base=[T1, T5, T7, AHW, A64, ARITH, STUBS, MODEL],
+        assumptions=['workers of one run are the only threads executing closures during it and are joined before the run returns (T5)', TASK_BOUND + ' (only for the Max(1) clause: data bounded, parameters fully symbolic)'],
+        explanation='Verus (unbounded): calc_num_threads(len, Max(n)) <= n; Runner::new gives 1 <= max_num_threads <= n; every run/run_map/reduce spawns between 1 and max_num_threads workers for every sequence of has_more() answers; is_sequential() <=> Max(1). Kani: with num_threads(1) and a fully symbolic chunk_size no terminal reaches the Runner (its three entry points are replaced by assert!(false)) and nothing is pulled through the concurrent interface.',
+    ),
+    'C09': dict(
+        level='model_checking', verus_units=['core'],
+        kani=True,
+        kani_select=dict(quick=r'^k_api_seq_', thorough=r'^k_api_seq_'),
+        trusted_base=[T7, STUBS, MODEL],
+        assumptions=[TASK_BOUND + '; chunk_size fully symbolic (Auto / Exact(c) / Min(c), any c)'],
+        explanation='Verus (unbounded): is_sequential() <=> num_threads == Max(1). Kani (bounded in data, complete in parameters): for every terminal and iterator type with num_threads(1) the value equals the std chain and the SEQUENCE of (stage, position) closure calls is identical to the std chain (so reduce/fold are left-to-right); nothing reaches the Runner. ' + MC_TEXT,
+    ),
+    'C10': dict(
+        level='other', verus_units=['core'],
+        kani=True,
+        kani_select=dict(quick=r'^k_task_\w+_find_n(3c1|3c2|2c1)|^k_glue_map_fil_find_|^k_api_seq_(map_fil_find|fil_first|map_any)',
+                         thorough=r'^k_task_\w+_find_|^k_glue_\w+_find_|^k_api_seq_\w+_(find|first|any|all)_'),
+        trusted_base=[T1, T5, AHW, A64, RSCHED, STUBS, MODEL],
+        assumptions=[TASK_BOUND, 'liveness under fairness (termination of the workers on an endless source) is not expressible as a contract; decided instead: the safety decomposition below, which implies the property together with T1 (after skip_to_end every pull returns None)'],
+        explanation='Safety decomposition of a liveness property. Verus (unbounded): the spawn loops terminate (decreases) after at most max_num_threads spawns, and do_spawn / next_chunk_size refuse as soon as has_more() is No. Kani (bounded): a worker that finds a match has called skip_to_end and performs no further pull, elements of its later chunks are never evaluated, a worker that sees None returns (constant = 1 chunk per worker); in sequential mode the call sequence stops at the first match (equals std find).',
     ),
     'C11': dict(
-        level='proof',
-        verus_units=['core'],
-        kani=['pull'],
-        trusted_base=[T1, T5, AHW, A64, ARITH],
-        assumptions=['T1: a pull of size c takes c consecutive elements, fewer only at the end of the source'],
-        explanation='Verus: calc_chunk_size maps Exact(x) to Exact(x); next_chunk_size* returns Some(x) under Exact(x); the spawn log of run/run_map/reduce is constantly x for every has_more() history. Kani (bounded): each kernel forwards its chunk size unchanged to every pull.',
+        level='proof', verus_units=['core'],
+        kani=True,
+        kani_select=dict(quick=r'^k_task_\w+_n3c2_m01|^k_glue_(map_fil|filtermap_fil)_(cnt|find)_n3c2', thorough=r'^k_task_\w+c[234]_|^k_glue_\w+c[234]_'),
+        trusted_base=[T1, T5, AHW, A64, ARITH, STUBS, MODEL],
+        assumptions=['T1: a pull of size c takes c consecutive elements, fewer only at the end of the source', TASK_BOUND + ' (only for "each kernel forwards its chunk size unchanged to every pull")'],
+        explanation='Verus (unbounded): calc_chunk_size maps Exact(x) to Exact(x); next_chunk_size* returns Some(x) under Exact(x); the spawn log of run/run_map/reduce is constantly x for every has_more() history and every thread count. Kani (bounded): every pull a kernel task makes requests exactly the chunk size the worker was started with.',
     ),
     'C12': dict(
-        level='proof',
-        verus_units=['core'],
-        kani=['params'],
-        trusted_base=[T7, A64],
-        assumptions=[],
-        explanation='Verus: Default, From<usize>, with_num_threads, with_chunk_size, is_sequential, sequential() against their specs for all inputs. Kani (loop-free, complete): each transformation and setter of the 8 iterator types keeps params().',
+        level='proof', verus_units=['core'],
+        kani=True,
+        kani_select=dict(quick=r'^k_lazy_\w+', thorough=r'^k_lazy_|^k_glue_\w+_(cnt|find)_n3'),
+        trusted_base=[T7, A64, STUBS, MODEL],
+        assumptions=['4 of the 8 eager transformation sites are beyond CBMC (flat_map materialisation): ParFlatMapFilter::{map,flat_map,filter_map}, ParFilterMapFilter::flat_map are not decided by a harness'],
+        explanation='Verus (unbounded): Default, From<usize>, with_num_threads, with_chunk_size, is_sequential, sequential() against their specs for all inputs. Kani (loop-free => complete): for each of the 8 iterator types, each of map/filter/flat_map/filter_map keeps params() for fully symbolic Params, num_threads(n)/chunk_size(c) report Auto for 0 and Max(n)/Exact(c) otherwise and keep the other field.',
+    ),
+    'C13': dict(
+        level='model_checking', verus_units=['merge', 'core'],
+        kani=False,
+        trusted_base=[T1, T2, T3, T4, T5, ASPEC, A64],
+        assumptions=['unbounded part only: Verus ledger of the merge; the final `set_len(0)` loop is accepted by Verus but its effect (lengths 0) is not proved (iter_mut prophecy specs); drops inside the dependencies under real concurrency are not covered'],
+        explanation='Verus (unbounded, real text): the merge reads every (vector, index) slot exactly once (ghost ledger `reads` is a bijection onto all slots) and pushes exactly that value to the output, so each value is owned exactly once by the output; Runner::run_map hands back every worker vector exactly once.',
     ),
     'C15': dict(
-        level='proof',
-        verus_units=['core'],
-        kani=['cfg'],
-        trusted_base=[T1, T5, AHW, A64, ASPEC, ARITH],
-        assumptions=[],
-        explanation='Verus: every arithmetic operation, assert!, expect, index and division in parameter resolution and in the Runner is safe for all inputs; chunk >= 1, threads >= 1. Kani (bounded): kernels agree with the sequential oracle for every worker count / chunk size of the shapes.',
+        level='proof', verus_units=['core'],
+        kani=True,
+        kani_select=dict(quick=r'^k_glue_(map_fil|filtermap_fil)_(cnt|find)_n3c1|^k_glue_map_fil_red_n3c1', thorough=r'^k_glue_'),
+        trusted_base=[T1, T5, AHW, A64, ASPEC, ARITH, STUBS, MODEL],
+        assumptions=['domain restriction (known finding KF-C15-1): chunk sizes c with len + c*(T+1) > usize::MAX wrap the dependency\'s position counter; the contracts do not cover them', TASK_BOUND + ' (only for "result independent of worker count / chunk size")'],
+        explanation='Verus (unbounded): every arithmetic operation, assert!, expect, index and division in parameter resolution (calc_num_threads, calc_chunk_size, div_ceil, find_chunk_size, min_chunk_size, lag/fibonacci) and in the Runner is safe for all inputs; chunk >= 1, threads >= 1; the spawn loops terminate. Kani (bounded): kernels agree with the parameter-free sequential oracle for the worker counts / chunk sizes of the shapes.',
+    ),
+    'C16': dict(
+        level='proof', verus_units=[],
+        kani=True,
+        kani_select=dict(quick=r'^k_lazy_', thorough=r'^k_lazy_'),
+        trusted_base=[STUBS, MODEL],
+        assumptions=['parametricity in the item type', '4 of the 8 eager sites are not decided by a harness (CBMC capacity): ParFlatMapFilter::{map,flat_map,filter_map}, ParFilterMapFilter::flat_map; they materialise with collect_vec exactly like the 4 decided ones (same source pattern) and are listed in DESIGN.md'],
+        explanation='Kani (loop-free => complete per transformation function): for each of the 8 iterator types x {map, filter, flat_map, filter_map, num_threads, chunk_size} and for Iterator::par(): after the call no user closure has run, no element was pulled, the source iterator was not advanced. The eager sites fail this with a concrete trace and are recorded as known findings.',
     ),
 }
 
